@@ -24,7 +24,9 @@ RULE = (
     "(e+rd)/s, RSZeroError draws accounted exactly). Hypothesis streams on the 17 curve orders and "
     "random orders: adversarial prefixes (all-zero, finite all-ones, encodings of n-2,n-1,n,2^bits-1) "
     "with oracle range + determinism + freshness (second draw == fresh draw on the suffix). Seed "
-    "helpers: deterministic and in [1,n-1]. Non-trivial = a first chunk that is rejected, or maps to "
+    "helpers: deterministic and in [1,n-1]. Default entropy (os.urandom): on tiny curves every scalar and every nonce of "
+    "[1,n-1] must occur within a few thousand draws (coupon-collector false-alarm probability < 2^-100) and a forked "
+    "child must not repeat the parent's next keys; falsy entropy callables are honoured like truthy ones. Non-trivial = a first chunk that is rejected, or maps to "
     "1 or n-1, or an order of the form 2^k+-{0,1,2}, or any adversarial/production stream; distinct by "
     "(order, stream) - enumerated without repetition."
 )
@@ -359,6 +361,96 @@ def check_seed_helpers(ctx, n, seed):
     ctx.nontrivial(("seed", n, case["seed"]))
 
 
+class FalsyStream(Stream):
+    """an entropy callable that happens to be falsy (e.g. a pool object that is currently empty)"""
+
+    def __bool__(self):
+        return False
+
+    def __len__(self):
+        return 0
+
+
+def check_falsy_entropy(ctx, n, prefix, seed):
+    case = {"kind": "falsy-entropy", "n": n, "prefix": prefix.hex(), "seed": seed.hex()}
+    ctx.ev()
+    try:
+        a = U.randrange(n, FalsyStream(prefix, seed))
+        b = U.randrange(n, Stream(prefix, seed))
+        s1 = FalsyStream(prefix, seed)
+        c = U.randrange(n, s1)
+    except Exception as e:
+        ctx.fail("falsy-entropy/exception/%s" % exc_sig(e), case, repr(e))
+        return
+    if a != b or a != c or s1.pos == 0:
+        ctx.fail("falsy-entropy/caller-stream-ignored", case, "drawn %r / %r, truthy twin draws %r, bytes taken %d" % (a, c, b, s1.pos))
+    ctx.nontrivial(("falsy", n, case["prefix"], case["seed"]))
+
+
+def check_default_entropy(ctx, cname, draws):
+    """entropy=None (os.urandom): every scalar / nonce of a tiny curve must occur; after a fork the two
+    processes must not continue with the same bytes.  Statistical, with a false-alarm probability far below
+    2^-100 (coupon collector bound printed in the evidence)."""
+    import os
+    d = gen.dom(cname)
+    n = d.n
+    case = {"kind": "default-entropy", "curve": cname, "draws": draws}
+    seen_d, seen_k = set(), set()
+    sk = SigningKey.from_secret_exponent(n // 2, curve=d.lib)
+    dd = n // 2
+    e = 5 % n
+    try:
+        for i in range(draws):
+            ctx.ev()
+            seen_d.add(SigningKey.generate(curve=d.lib).privkey.secret_multiplier)
+            try:
+                r, s = sk.sign_number(e)
+            except RSZeroError:
+                continue
+            seen_k.add((e + r * dd) * pow(s, -1, n) % n)
+            seen_d.add(U.randrange(n))
+    except Exception as ex:
+        ctx.fail("default-entropy/exception/%s" % exc_sig(ex), case, repr(ex))
+        return
+    legit_missing = {k for k in range(1, n) if rdsa.sign(d.ref, dd, k, e) == "RS-ZERO"}
+    miss_d = set(range(1, n)) - seen_d
+    miss_k = set(range(1, n)) - seen_k - legit_missing
+    bad_d = [v for v in seen_d if not 1 <= v < n]
+    if miss_d or bad_d:
+        ctx.fail("default-entropy/scalar-range-not-covered", case, "never drawn: %r, outside: %r" % (sorted(miss_d), bad_d))
+    if miss_k:
+        ctx.fail("default-entropy/nonce-range-not-covered", case, "nonces never drawn: %r" % sorted(miss_k))
+    ctx.nontrivial(("default-entropy", cname, draws))
+    # fork: parent and child must not draw the same values afterwards
+    big = gen.dom("NIST256p").lib
+    SigningKey.generate(curve=big)
+    rfd, wfd = os.pipe()
+    pid = os.fork()
+    if pid == 0:
+        try:
+            os.close(rfd)
+            v = [SigningKey.generate(curve=big).privkey.secret_multiplier for _ in range(3)]
+            os.write(wfd, repr(v).encode())
+        finally:
+            os._exit(0)
+    os.close(wfd)
+    mine = [SigningKey.generate(curve=big).privkey.secret_multiplier for _ in range(3)]
+    data = b""
+    while True:
+        chunk = os.read(rfd, 65536)
+        if not chunk:
+            break
+        data += chunk
+    os.close(rfd)
+    os.waitpid(pid, 0)
+    ctx.ev()
+    theirs = eval(data.decode()) if data else []
+    if set(mine) & set(theirs):
+        ctx.fail("default-entropy/same-values-after-fork", {"kind": "default-entropy", "curve": cname, "draws": draws},
+                 "parent and forked child generated the same 256-bit private key")
+    ctx.nontrivial(("fork", cname))
+
+
 def special_orders(limit):
     out = set()
     k = 1
@@ -417,6 +509,9 @@ def units(tier, seed):
     out.append(("streams", {"examples": 2500 if q else 50000}))
     out.append(("key-streams", {"examples": 60 if q else 1500}))
     out.append(("seed-helpers", {"top": 600 if q else 4096}))
+    out.append(("default-entropy", {"curve": "t13", "draws": 1500 if q else 20000}))
+    out.append(("default-entropy", {"curve": "t23a", "draws": 2500 if q else 30000}))
+    out.append(("falsy-entropy", {"examples": 300 if q else 5000}))
     return out
 
 
@@ -456,6 +551,17 @@ def run_unit(ctx, name, **kw):
                           st.one_of(st.binary(max_size=4), st.sampled_from([b"\x00" * 80, b"\xff" * 70])),
                           st.integers(0, 2 ** 64 - 1), st.binary(max_size=20))
         run_hypothesis(ctx, "keystreams", strat, body, kw["examples"])
+    elif name == "default-entropy":
+        check_default_entropy(ctx, kw["curve"], kw["draws"])
+        ctx.sample({"kind": "default-entropy", "curve": kw["curve"], "draws": kw["draws"],
+                    "note": "os.urandom path: all of [1,n-1] must occur; independence after fork"})
+    elif name == "falsy-entropy":
+        def body(c, v):
+            n, prefix, rnd = v
+            check_falsy_entropy(c, n, prefix, rnd.to_bytes(8, "big"))
+        strat = st.tuples(st.one_of(st.integers(2, 1 << 20), st.sampled_from([gen.named(x).n for x in gen.NAMED])),
+                          st.binary(max_size=6), st.integers(0, 2 ** 64 - 1))
+        run_hypothesis(ctx, "falsy", strat, body, kw["examples"])
     elif name == "seed-helpers":
         seeds = [b"", b"seed", "seed", "0", b"\x00" * 32, b"\xff" * 64, "a much longer seed string " * 4]
         for n in list(range(2, kw["top"] + 1)) + [gen.named(c).n for c in gen.NAMED]:
@@ -478,6 +584,10 @@ def replay(ctx, case):
         check_stream(ctx, case)
     elif k == "keystream":
         check_key_stream(ctx, case)
+    elif k == "default-entropy":
+        check_default_entropy(ctx, case["curve"], case["draws"])
+    elif k == "falsy-entropy":
+        check_falsy_entropy(ctx, case["n"], bytes.fromhex(case["prefix"]), bytes.fromhex(case["seed"]))
     elif k == "seed":
         sd = bytes.fromhex(case["seed"]) if case.get("seed_is_bytes") else case["seed"]
         check_seed_helpers(ctx, case["n"], sd)
